@@ -527,9 +527,11 @@ def f_bg_like(W):
 
 
 def f_bg_like_deriv(W):
-    return [_bg('gradient-only', W, lambda bg: [W.x0(bg), False]),
+    # hessian / bhhh are always requested: when they are not, the function hands back uninitialised
+    # (np.empty) matrices whose content is whatever the allocator left there -- nothing to compare
+    return [_bg('unscaled-positional', W, lambda bg: [W.x0(bg), False, True, True]),
             _bg('scaled-hessian-bhhh', W, [[-0.3, 0.1, 0.2]], kwargs=dict(scaled=True, hessian=True, bhhh=True)),
-            _bg('save-iterations', W, lambda bg: [W.x0(bg), False], save_iterations=True)]
+            _bg('save-iterations', W, lambda bg: [W.x0(bg), False], kwargs=dict(hessian=True, bhhh=True), save_iterations=True)]
 
 
 def f_bg_fdh(W):
@@ -690,18 +692,25 @@ class ExprMaker:
     def __init__(self, W: World):
         self.W = W
         self.r = W.rng
+        self._betas = {}
 
     def num(self):
         from biogeme.expressions import Numeric
 
         return Numeric(round(self.r.uniform(0.2, 2.5), 3))
 
+    STATUS = {'b1': 0, 'b2': 0, 'b3': 1}
+
     def beta(self, name=None, status=None):
+        """one definition per name (b1, b2 free; b3 fixed): a formula must not define a parameter twice"""
         from biogeme.expressions import Beta
 
-        name = name or self.r.choice(['b1', 'b2', 'b3'])
-        status = self.r.choice([0, 0, 1]) if status is None else status
-        return Beta(name, round(self.r.uniform(0.2, 1.5), 3), None, None, status)
+        if name is None:
+            pool = [n for n, s in self.STATUS.items() if status is None or s == status]
+            name = self.r.choice(pool)
+        if name not in self._betas:
+            self._betas[name] = Beta(name, round(self.r.uniform(0.2, 1.5), 3), None, None, self.STATUS[name])
+        return self._betas[name]
 
     def var(self):
         from biogeme.expressions import Variable
